@@ -176,8 +176,12 @@ func consumeOf(prog *core.Program, fn *ssa.Function, ins ssa.Instruction) (ev la
 		if n, ok := sliceConstLen(com.Args[0]); ok {
 			ev.Width = n
 		}
-		// destination: where the buffer ends up
-		if dst := bufferDest(fn, com.Args[0]); dst != "" {
+		// destination: the field the buffer was loaded from, or where it ends up
+		if u, ok := com.Args[0].(*ssa.UnOp); ok && u.Op == token.MUL {
+			if fa, ok := u.X.(*ssa.FieldAddr); ok {
+				ev.Dest = destOfAddr(fn, fa)
+			}
+		} else if dst := bufferDest(fn, com.Args[0]); dst != "" {
 			ev.Dest = dst
 		}
 		return ev, true
